@@ -28,7 +28,7 @@ std::string rand_text(Rng &r, size_t maxlen) {
   return s;
 }
 
-static Json oracle_list(std::initializer_list<const char *> l) { Json a = Json::arr(); for (auto x : l) a.push(x); return a; }
+Json oracle_list(std::initializer_list<const char *> l) { Json a = Json::arr(); for (auto x : l) a.push(x); return a; }
 
 // ------------------------------------------------------------------------------------------------ C03 / C04 histories
 static void gen_history(Rng &r, Plan &p, int mode, bool c04) {
@@ -140,9 +140,9 @@ static bool gen_c04(uint64_t seed, const std::string &tier, uint64_t i, Plan &p)
   return true;
 }
 
-static std::vector<std::string> q_real() { return {"qmail-start", "qmail-send", "qmail-clean", "qmail-queue (injectors and bounce injection)", "trigger FIFO, flock, pipes via simos"}; }
-static std::vector<std::string> q_stubs() { return {"qmail-lspawn/qmail-rspawn replaced by scripted spawner stubs speaking the delivery protocol", "message/envelope feeders (pre-filled pipes)", "log sink on qmail-send fd 0"}; }
-static std::vector<std::string> q_assume() {
+std::vector<std::string> q_real() { return {"qmail-start", "qmail-send", "qmail-clean", "qmail-queue (injectors and bounce injection)", "trigger FIFO, flock, pipes via simos"}; }
+std::vector<std::string> q_stubs() { return {"qmail-lspawn/qmail-rspawn replaced by scripted spawner stubs speaking the delivery protocol", "message/envelope feeders (pre-filled pipes)", "log sink on qmail-send fd 0"}; }
+std::vector<std::string> q_assume() {
   return {"simos models POSIX/Linux semantics (DESIGN 2, Appendix A); directory operations synchronous and single-byte writes atomic, as conf-qmail stipulates",
           "fork is emulated vfork-style: a parent does not run between fork and the child's exec/_exit", "one yield point per system call; signal handlers run at call boundaries",
           "a clean batch is evidence bounded by the explored plans, not a proof"};
